@@ -93,6 +93,9 @@ class MultiCrossBlockRepeat(Block):
 
         from sweetpea._internal.constraint import Cross, Consistency, Sustain
         from sweetpea._internal.derivation_processor import DerivationProcessor
+        # Constraint objects record the geometry of the block they were first given to, so each
+        # block works on its own copies; the caller's objects stay reusable in other blocks
+        constraints = [copy.copy(ct) for ct in constraints]
         self.orig_design = design
         self.orig_crossings = crossings
         self.orig_constraints = constraints
